@@ -137,9 +137,21 @@ def build_model(case):
 
 
 # ------------------------------------------------------------------ configurations
-def legal_variants(layout, die, slots, used):
+def legal_variants(layout, die, slots, used, ratio=None):
     """(description, configuration) : configurations are deep copies of layout with modified rectangles"""
     out = [('input', copy.deepcopy(layout))]
+    if ratio:
+        # a soft single-rectangle module elongated to 90% of the aspect-ratio limit of THIS model (same area, same centre):
+        # legal under this limit, whatever limits other models of the process have
+        for mi, m in enumerate(layout):
+            if m['kind'] == 'soft' and len(m['rects']) == 1:
+                for wide in (True, False):
+                    c = copy.deepcopy(layout)
+                    r = c[mi]['rects'][0]
+                    a = r['w'] * r['h']
+                    long_, short_ = (a * 0.9 * ratio) ** 0.5, (a / (0.9 * ratio)) ** 0.5
+                    r['w'], r['h'] = (long_, short_) if wide else (short_, long_)
+                    out.append((f'elongate M{mi} {"wide" if wide else "tall"}', c))
     free = [s for i, s in enumerate(slots) if i not in used]
     for mi, m in enumerate(layout):
         if m['kind'] != 'fixed':
@@ -430,7 +442,7 @@ def check_case(case, res):
     used = [si for _, si in case['mods']]
     kinds = sorted({m['kind'] + ('+branches' if len(m['rects']) > 1 else '') for m in layout})
     only = case.get('only')
-    for (ldesc, lcfg) in legal_variants(layout, die, slots, used):
+    for (ldesc, lcfg) in legal_variants(layout, die, slots, used, float(case['ratio'])):
         cfgs = [(ldesc, lcfg)] + [(ldesc + ' / ' + pdesc, pc) for pdesc, pc in perturbations(lcfg, die)]
         for desc, cfg in cfgs:
             if only is not None and desc != only:
@@ -606,7 +618,8 @@ def run_shard(shard, tier, res):
         dies = [[10, 8]] if needs_wide else [[8, 8]]
         if tier == 'thorough' and not needs_wide:
             dies.append([9.5, 8.5])
-        ratios = [2.0] if tier == 'quick' else [2.0, 3.0]
+        # (quick: both limits for the one-module netlists - models with different limits follow each other in one process)
+        ratios = [2.0, 3.0] if (tier != 'quick' or len(mods) == 1) else [2.0]
         for die in dies:
             for ratio in ratios:
                 check_case(dict(mods=[list(m) for m in mods], die=die, ratio=ratio), res)
